@@ -58,6 +58,7 @@ type FuncContract struct {
 	Decoder  bool      // C11: inputs unconstrained, termination mandatory
 	Abstract []string  // abstracted instruction patterns
 	Ghost    []GhostDecl
+	GhostAt  []*GhostAt
 	File     string
 	Line     int
 	// for trusted externals: explicit signature
@@ -136,7 +137,7 @@ var clauseKW = map[string]bool{
 	"func": true, "spec": true, "lemma": true, "axiom": true, "trusted": true, "mode": true, "props": true,
 	"requires": true, "ensures": true, "modifies": true, "loop": true, "inline": true,
 	"pure": true, "nullable": true, "may_alias": true, "panics": true, "wraps": true,
-	"decoder": true, "abstract": true, "ghost": true, "terminates": true, "uninterp": true,
+	"decoder": true, "abstract": true, "ghost": true, "terminates": true, "uninterp": true, "at": true,
 }
 
 var reTag = regexp.MustCompile(`^(\w+)\[([A-Z0-9, ]+)\]`)
@@ -431,12 +432,91 @@ func (cs *Contracts) ParseContractFile(path, pkgPath string) error {
 					g.Init = e
 				}
 				cur.Ghost = append(cur.Ghost, g)
+			case "at":
+				k := strings.Index(rest, " ghost ")
+				if k < 0 {
+					return fail("expected 'at <site> ghost <stmts>'")
+				}
+				ga := &GhostAt{Site: strings.Join(strings.Fields(rest[:k]), " "), Line: ll.line}
+				for _, s := range strings.Split(rest[k+7:], ";") {
+					s = strings.TrimSpace(s)
+					if s == "" {
+						continue
+					}
+					eq := topLevelAssign(s)
+					if eq < 0 {
+						return fail("ghost statement needs 'target = expr': %q", s)
+					}
+					lhs, err := ParseSpec(s[:eq])
+					if err != nil {
+						return fail("%v", err)
+					}
+					rhs, err := ParseSpec(s[eq+1:])
+					if err != nil {
+						return fail("%v", err)
+					}
+					gs := GhostStmt{Rhs: rhs, Src: s}
+					switch t := lhs.(type) {
+					case *SIdent:
+						gs.Name = t.Name
+					case *SIndex:
+						id, ok := t.X.(*SIdent)
+						if !ok {
+							return fail("ghost assignment target must be name or name[index]")
+						}
+						gs.Name, gs.Index = id.Name, t.I
+					default:
+						return fail("ghost assignment target must be name or name[index]")
+					}
+					ga.Stmts = append(ga.Stmts, gs)
+				}
+				cur.GhostAt = append(cur.GhostAt, ga)
 			default:
 				return fail("unknown clause %q", kw)
 			}
 		}
 	}
 	return nil
+}
+
+// topLevelAssign finds the '=' of an assignment (not ==, <=, >=, !=).
+func topLevelAssign(s string) int {
+	depth := 0
+	for i := 0; i < len(s); i++ {
+		switch s[i] {
+		case '(', '[':
+			depth++
+		case ')', ']':
+			depth--
+		case '=':
+			if depth != 0 {
+				continue
+			}
+			if i+1 < len(s) && s[i+1] == '=' {
+				i++
+				continue
+			}
+			if i > 0 && (s[i-1] == '<' || s[i-1] == '>' || s[i-1] == '!' || s[i-1] == '=') {
+				continue
+			}
+			return i
+		}
+	}
+	return -1
+}
+
+type GhostStmt struct {
+	Name  string
+	Index SpecExpr
+	Rhs   SpecExpr
+	Src   string
+}
+
+type GhostAt struct {
+	Site  string // "entry", "append#N", "loop N back"
+	Stmts []GhostStmt
+	Line  int
+	used  int
 }
 
 func splitTop(s string, sep byte) []string {
